@@ -76,7 +76,9 @@ Record vm := mk_vm {
   hp : heap; st : store;
   g_bind : list (N * N);         (* GlobalEnvironment.bindings: symbol address -> slot *)
   g_slots : list vcell;          (* GlobalEnvironment.slots *)
-  stack : list vcell; sp : N; bp : N; ep : N; ip : N * N; acc : vcell;
+  stack : tbl vcell;             (* Stack.stack: slot i (absent = Undefined), i < scap *)
+  scap : N;                      (* Stack.stack.len(): the capacity, never shrinks *)
+  sp : N; bp : N; ep : N; ip : N * N; acc : vcell;
   out_log : list outev           (* SystemInterface display/write calls, newest first *)
 }.
 (* Vm::last_stacktrace is NOT part of [vm]: no instruction or builtin reads or writes
